@@ -193,8 +193,8 @@ pub fn behaviour() -> Behaviour {
         cfg,
         adjust: no_adjust,
         render,
-        quick: 500,
-        thorough: 10000,
+        quick: 1500,
+        thorough: 20000,
         batch: 25,
         assumptions: &["the statement's std-equivalence clause is limited to ordinary identifiers, so raw identifiers are left to C01"],
     }
